@@ -422,7 +422,7 @@ EXTRA_TEXT = {
  "C19": "Histories also contain reconnects (DisconnectAll then Connect, in half of the cases after an attempt that fails because no websocket endpoint answers; C19_reconnect_revives_all), directed ones being followed by a commit-reveal call and a burst. Histories run in child processes (a panic in one of the adaptor's goroutines is attributed to its history); half of the multi-endpoint rigs have a single websocket endpoint. Between the calls of a history the operator changes the gas price and the gas limit (SetGasPrice / SetGasLimit); every transaction an endpoint receives afterwards - on rigs with fewer websocket than RPC endpoints too - must carry the settings in force. The settings are a layer over the adaptor model (Models/AdaptorGas.v: per RPC endpoint a proxy and a commit-reveal session with transact options, the setters' loop over both lists, Connect rebuilding the sessions from the adaptor's fields): over any history every transaction any endpoint receives - first choice or fail-over, proxy or commit-reveal call - carries the configuration or the latest change (C19_gas_settings_in_force, by the invariant that every session carries the adaptor's current setting, C19_gas_initial), and forgetting the settings gives exactly the adaptor history of the other theorems (C19_gas_layer_transparent); the histories are compared with this layer's outputs (settings per received transaction).",
  "C13": "The real dispatch stage (VerifDispatchSign on the submitter) is cancelled while it waits for the node's own share, or after it registered, and 16 late shares arrive: the collector must neither panic nor stop serving another request. The end-to-end systems serve a second, undisturbed request after the first one (same submitter): it must be reported.",
  "C12": "Library-level probes: deals that every verifier approves but that have fewer commitments than the threshold, or one coefficient more / less, run to DistKeyShare on all members - no call may panic. Scenario added: the attacker echoes each member's own broadcast public key back under the attacker's index. Scenario added: both peers' shares reach the submitter before it registers the request (more shares waiting than its recovery takes); the node must serve the following request as well. Every signature-share scenario is followed by a second request.",
- "C10": "Group elements as values: a clone keeps its value when the original is updated in place (Add, Neg, Mul) and vice versa, and the identity stays the identity after points obtained from Null() were used as accumulators - in G1, G2 and GT. Programs over point OBJECTS (props/pointmachine.go): registers holding a point and the logarithm it must have; fresh multiples, multiples of earlier results (scalars 2^j-1, (q+1)/2, q-1.. among them), sums / differences / negations into new and into used objects (either operand as destination), clones, Set into a used object, decode(encode(.)), and calls that only look (MarshalBinary, Equal, String); nothing is looked at until the program ends, then every register must encode like its logarithm's multiple of the generator computed afresh and like the reference implementation's - in G1, G2 and GT; registers with small logarithms are also given to the model's scalar multiplication. Proved for the model's formulas over any field (Proofs/BnRepr.v): Add, Double and Neg map operands that represent the same elements - both the point at infinity, or both finite with the same affine coordinates - to results that represent the same element, whichever branch each pair of triples takes (C10_add_representation_independent, C10_double_representation_independent, C10_neg_representation_independent; side condition: no finite operand with y = 0, i.e. of order two), and all representations of a finite element have one normal form (C10_normal_form_canonical).",
+ "C10": "Group elements as values: a clone keeps its value when the original is updated in place (Add, Neg, Mul) and vice versa, and the identity stays the identity after points obtained from Null() were used as accumulators - in G1, G2 and GT. Programs over point OBJECTS (props/pointmachine.go): registers holding a point and the logarithm it must have; fresh multiples, multiples of earlier results (scalars 2^j-1, (q+1)/2, q-1.. among them), sums / differences / negations into new and into used objects (either operand as destination), clones, Set into a used object, decode(encode(.)), and calls that only look (MarshalBinary, Equal, String); nothing is looked at until the program ends, then every register must encode like its logarithm's multiple of the generator computed afresh and like the reference implementation's - in G1, G2 and GT; registers with small logarithms are also given to the model's scalar multiplication. Proved for the model's formulas over any field (Proofs/BnRepr.v): Add, Double and Neg map operands that represent the same elements - both the point at infinity, or both finite with the same affine coordinates - to results that represent the same element, whichever branch each pair of triples takes (C10_add_representation_independent, C10_double_representation_independent, C10_neg_representation_independent; addition is commutative on the elements, C10_add_commutative; side condition: no finite operand with y = 0, i.e. of order two), and all representations of a finite element have one normal form (C10_normal_form_canonical).",
  "C05": "Scenarios added: crafted commitments (constant term = sum_{k>=1} c_k x^k at a victim's abscissa, with the true share or the share 0), two colluding dealers dealing from one polynomial, a valid threshold with commitments of a constant polynomial. Also: member 0's share (index 0) handed to the other members. A dealer that announces the threshold 2, sends as many commitments as the honest dealers and lets the coefficients beyond the announced threshold differ between two halves of the members (every share and session id consistent with the content it travels with). A dealer that sends as many commitments as the honest ones, announces a threshold one less and hands out the values of the polynomial without its top coefficient (same content for everybody).",
  "C04": "Liveness (Proofs/DkgLive.v): for any group of n >= 2 honest members, any threshold 2 <= t <= n, any polynomials, member i's session - the deals of all other members in ANY order, then k's approval of j's deal for all dealers j and responders k other than i and j in ANY order - finishes with a key share (C04_everything_delivered_finishes, by an invariant over the verifier table: every recorded deal is the dealer's, every response list has one approval per responder seen so far; C04_liveness_premises_hold instantiates the premises). A schedule in which the first attempt to send a public key is lost the way the real transport loses a request (Request's own 5 s deadline, wrapped) judges liveness: nobody can finish before the retry delivers it.",
  "C01": "Node level (Proofs/NodeCompose.v): the collector model of C13 feeding this stage - own share first, then whatever the collector hands to the request: the node's outcome depends only on the arrivals for the request id in order, not on when the registration fell or on other requests (C01_node_outcome_order_independent); its reports satisfy the contract equation (C01_node_reports_valid); once own share + arrivals hold valid shares of t distinct members it reports (C01_node_live). The stage-level runs also judge liveness: valid shares of a threshold of distinct members among the junk must yield a report. A directed family has exactly a threshold of valid shares, one of them in a packet labelled with another traffic type and arriving last (the report must still go to the call of the request's own type). Every system run is followed by a second, undisturbed request handled by the same honest members (same submitter when it is honest): it must be reported (the nodes keep serving).",
